@@ -24,6 +24,11 @@ func (w zzWrap) Unwrap() error { return w.err }
 
 var zzErrA = errors.New("a")
 var zzErrB = errors.New("b")
+var zzErrC = errors.New("c") // never part of an outcome: extra target of the variadic registrations
+
+type zzOtherErr struct{ x int } // never part of an outcome
+
+func (zzOtherErr) Error() string { return "other" }
 
 // zzErrCase is one error shape with the documented answers of the three matchers.
 type zzErrCase struct {
@@ -73,13 +78,13 @@ func ZZ_H12a_IsFailure() {
 				anyMatch = true
 			}
 		case 0:
-			p.HandleErrors(zzErrA)
+			p.HandleErrors(zzErrA, zzErrC)
 			errorCond = true
 			if ec.isA {
 				anyMatch = true
 			}
 		case 1:
-			p.HandleErrorTypes(zzValErr{})
+			p.HandleErrorTypes(zzValErr{}, zzOtherErr{})
 			errorCond = true
 			if ec.typeVal {
 				anyMatch = true
@@ -141,12 +146,12 @@ func ZZ_H12b_IsAbortable() {
 				anyMatch = true
 			}
 		case 0:
-			p.AbortOnErrors(zzErrA)
+			p.AbortOnErrors(zzErrA, zzErrC)
 			if ec.isA {
 				anyMatch = true
 			}
 		case 1:
-			p.AbortOnErrorTypes(zzValErr{})
+			p.AbortOnErrorTypes(zzValErr{}, zzOtherErr{})
 			if ec.typeVal {
 				anyMatch = true
 			}
